@@ -432,8 +432,8 @@ func c06RuleE(c *core.Ctx, r *c06roles, prov *c08Prov) {
 		return
 	}
 	for _, pk := range r.pkgs {
-		for _, tn := range c06TextNodes(r, pk) {
-			f := tn.Parent()
+		for _, site := range c06TextSites(r, pk, prov) {
+			tn := site.tn
 			// the extraction call: data of the text node is the result of a method of a column declaration
 			ex, ok := tn.Call.Args[1].(*ssa.Call)
 			var exf *ssa.Function
@@ -482,11 +482,11 @@ func c06RuleE(c *core.Ctx, r *c06roles, prov *c08Prov) {
 					}
 				}
 				if owned {
-					c.Unknown("R06e", core.FuncKey(f)+" column text is extracted from the selected line", tn.Pos(), "the text of a column is not the result of a method of the column declaration (directly or through one helper): the line it is taken from cannot be related to the line selector")
+					c.Unknown("R06e", site.fk+" column text is extracted from the selected line", tn.Pos(), "the text of a column is not the result of a method of the column declaration (directly or through one helper): the line it is taken from cannot be related to the line selector")
 				}
 				continue
 			}
-			key := core.FuncKey(f) + " column text is extracted from the selected line"
+			key := site.fk + " column text is extracted from the selected line"
 			recvV := exArgs[0]
 			// the selector: a dominating branch on a bool method of the same declaration that reads line_index/line_pattern
 			var m *ssa.Call
@@ -764,8 +764,9 @@ func c06RuleH(c *core.Ctx, r *c06roles, prov *c08Prov) {
 		if pk.kind != "line" {
 			continue
 		}
-		for _, tn := range c06TextNodes(r, pk) {
-			key := core.FuncKey(tn.Parent()) + " column cut uses rune widths"
+		for _, site := range c06TextSites(r, pk, prov) {
+			tn := site.tn
+			key := site.fk + " column cut uses rune widths"
 			var slices []*ssa.Slice
 			seenS := map[*ssa.Slice]bool{}
 			prov.OnSlice = func(s *ssa.Slice) {
@@ -774,7 +775,7 @@ func c06RuleH(c *core.Ctx, r *c06roles, prov *c08Prov) {
 					slices = append(slices, s)
 				}
 			}
-			prov.Resolve(tn.Call.Args[1], nil)
+			prov.Resolve(tn.Call.Args[1], site.ctx)
 			prov.OnSlice = nil
 			leaves := map[string]bool{}
 			for _, s := range slices {
